@@ -2,11 +2,14 @@
 
 Translation validation with a proved validator: the real functions are run through the public `mp` API on arguments of the
 sub-family where Mathlib proves a closed form; the exact output is decided against the exact value by `mpdrv spec/specc`
-(Mp.SpecRef.specCheck, sound by Props/C22.lean).  Arguments outside the sub-family are counted, not decided."""
+(Mp.SpecRef.specCheck, sound by Props/C22.lean).  Arguments outside the sub-family are counted, not decided.
+Non-terminating pFq series are decided against the exact partial sum + checked geometric tail bound
+`Mp.SpecRef.hypEncl`, negative integer degrees of legendre/chebyt/chebyu against the reflected recurrences, by
+`mpdrv spec2/specc2` (sound by Props/C22b.lean)."""
 import special_ops
 
 LEVEL = "translation_validation"
-LEAN_MODULES = ["Props.C22"]
+LEAN_MODULES = ["Props.C22", "Props.C22b"]
 ASSUMPTIONS = special_ops.ASSUMPTIONS["C22"]
 
 
